@@ -23,6 +23,7 @@ fn main() {
         "C04" => main_for::<props::c04::P>(rest),
         "C07" => main_for::<props::c07::P>(rest),
         "C13" => main_for::<props::c13::P>(rest),
+        "C16" => main_for::<props::c16::P>(rest),
         _ => {
             eprintln!("unknown property {id}");
             2
